@@ -2,8 +2,8 @@
 
 PROP = dict(
     level="proof",
-    lean_modules=['PopsModel.Props.C01', 'PopsModel.Props.C01Step', 'PopsModel.Props.NonVacuous.Host', 'PopsModel.Props.RunModel'],
-    theorems=['Pops.C01_cell_step', 'Pops.C01_move', 'Pops.C01_history', 'Pops.C01_generators', 'Pops.C01_model_step', 'Pops.C01_run'],
+    lean_modules=['PopsModel.Props.C01', 'PopsModel.Props.C01Step', 'PopsModel.Props.NonVacuous.Host', 'PopsModel.Props.RunModel', 'PopsModel.Props.C01Ledger'],
+    theorems=['Pops.C01_cell_step', 'Pops.C01_move', 'Pops.C01_history', 'Pops.C01_generators', 'Pops.C01_model_step', 'Pops.C01_run', 'Pops.C01_removed_cell', 'Pops.C01_removed_cell_iff', 'Pops.C01_removed_bounds', 'Pops.C01_removed_op', 'Pops.C01_history_spec', 'Pops.C01_model_step_spec', 'Pops.C01_run_spec'],
     commands=[],
     runs={
         "quick": [('h_host', 'pool', 0, 1500), ('h_model', 'model', 0, 400), ('h_mmodel', 'multi', 0, 150), ('h_sim', 'sim', 0, 150)],
